@@ -255,23 +255,24 @@ Definition sources_of (cn : conv_name) (st : stream) : list source :=
 
 Definition count_true (l : list bool) : nat := length (filter (fun b => b) l).
 
-(* the accounting at the end of the filter (no variants): per condition successes / fails over the evaluated sources *)
+(* the accounting at the end of the filter (no variants): per condition successes / fails over the evaluated sources:
+   `successes == 0` -> no; `fails == 0` -> yes; both -> yes unless the condition is inverted *)
+Definition decide (inv : bool) (bs : list bool) : bool :=
+  let succ := count_true bs in
+  let fails := length bs - succ in
+  if Nat.eqb succ 0 then false else if Nat.eqb fails 0 then true else negb inv.
+
+Definition cond_results (F : nat) (guard : bool) (tbl : list rx) (cs : list cond) (srcs : list source) (ci : nat) : list bool :=
+  map (fun ps => match nth_error cs ci, nth_error ps ci with
+                 | Some c, Some p => cond_success c p | _, _ => false end)
+      (map (source_eval F guard tbl cs) srcs).
+
 Definition conj_selected (F : nat) (guard : bool) (tbl : list rx) (cn : conv_name) (cs : list cond) (st : stream) : bool :=
   let srcs := sources_of cn st in
   match srcs with
   | [] => forallb c_inv cs
-  | _ =>
-    let results := map (source_eval F guard tbl cs) srcs in                (* per source: progress per condition *)
-    let per_cond := map (fun ci => map (fun ps => match nth_error cs ci, nth_error ps ci with
-                                                   | Some c, Some p => cond_success c p | _, _ => false end) results)
-                        (seq 0 (length cs)) in
-    forallb (fun pr : cond * list bool =>
-               let succ := count_true (snd pr) in
-               let fails := length (snd pr) - succ in
-               if Nat.eqb succ 0 then false
-               else if Nat.eqb fails 0 then true
-               else negb (c_inv (fst pr)))
-            (List.combine cs per_cond)
+  | _ => forallb (fun pr : cond * list bool => decide (c_inv (fst pr)) (snd pr))
+                 (List.combine cs (map (cond_results F guard tbl cs srcs) (seq 0 (length cs))))
   end.
 
 Definition any_bad (F : nat) (guard : bool) (tbl : list rx) (cn : conv_name) (cs : list cond) (st : stream) : bool :=
